@@ -164,7 +164,10 @@ void SelectLoop::removeInvalidFds()
         if (!IsFdValid(fd)) {
             LogWarn("fd:%d is invalid", fd);
             SelectFdSharedData *data = item.second;
-            for (auto event : data->fd_events) {
+            //! disable() 会从 data->fd_events 中删除自己，必须遍历副本
+            //! (disable() erases the event from data->fd_events: walk a copy)
+            auto tmp = data->fd_events;
+            for (auto event : tmp) {
                 event->disable();
             }
         }
